@@ -26,6 +26,7 @@ Contexts == {"alone", "sum-right", "sum-left", "argument", "exponent", "numerato
              "in-parens", "in-set", "two-arguments", "expression-end",
              "sum-after-open-fence", "sum-before-close-fence"}       \* ( N + x )  and  ( x + N ): a summand next to ONE fence is no list
 FencedList == {"in-parens", "in-set", "two-arguments"}
+StartsRow == {"alone", "sum-left", "exponent", "numerator", "denominator"}          \* the number is the first thing of its row
 
 IsD(c) == c = "d"
 \* the positions of the separators
@@ -68,6 +69,10 @@ Class(c) ==
       commaOwn == \E i \in ownSeps : (w[i] = "b" /\ c.blockIsComma) \/ (w[i] = "m" /\ c.markIsComma)
       edgeCommaOwn == \E i \in ownSeps : i \in {1, Len(w)} /\ ((w[i] = "b" /\ c.blockIsComma) \/ (w[i] = "m" /\ c.markIsComma))
       trailingMarkOwn == w[Len(w)] = "m" /\ Len(w) \in ownSeps
+      \* the statement's grammar has an optional LEADING decimal mark; as a token of its own a leading comma is only unambiguous
+      \* where nothing stands in front of it in its row, and it is the only own comma
+      leadingMarkStartsRow == /\ w[1] = "m" /\ 1 \in ownSeps /\ c.markIsComma /\ c.ctx \in StartsRow
+                              /\ \A i \in ownSeps \ {1} : ~((w[i] = "b" /\ c.blockIsComma) \/ (w[i] = "m" /\ c.markIsComma))
   IN
   IF ownSeps = {} THEN "Unspecified"                                       \* nothing was split
   ELSE IF NotANumber(w) THEN "Forbidden"
@@ -76,7 +81,8 @@ Class(c) ==
   ELSE IF c.ctx = "argument" /\ commaOwn THEN "Unspecified"              \* f(x, 1,234): which commas separate arguments?
   ELSE IF ~InGrammar(w) THEN "Unspecified"
   ELSE IF trailingMarkOwn THEN "Unspecified"                              \* '5' '.': a number with a trailing mark, or 5 and a full stop?
-  ELSE IF edgeCommaOwn THEN "Unspecified"                                 \* ', 5': punctuation or a decimal comma?
+  ELSE IF edgeCommaOwn /\ ~leadingMarkStartsRow THEN "Unspecified"        \* ', 5': punctuation or a decimal comma?
+                                                                          \* (at the start of its row it is the number's: ',5 + x')
   ELSE "Required"
 
 (***************************************************************************)
